@@ -55,6 +55,16 @@ def judgeCarry (truths : List (String × String)) (agg : String) : String :=
   | [] => "ok"
   | b :: _ => s!"fail:carry:the sample does not carry the received status / the failure: {b}"
 
+/-- Verdict on a run whose schedule works against the clock with `discard_overflow` on (round 4): every one of the
+`tokens` schedule tokens yields the samples of its shot (1 … `steps`) or — when the instance found it overdue, which a
+slow target causes — exactly ONE sample tagged `discarded` carrying no status and a failure code; the instance goes on
+with the next ammo either way. `discarded`: how many such samples arrived, `discardedOk`: all of them carry proto 0
+and a non-zero net code. -/
+def judgeLoop (tokens steps : Nat) (res : String) (samples discarded : Nat) (discardedOk : Bool) : String :=
+  if discarded > tokens then s!"fail:count:{discarded} discarded samples for {tokens} schedule tokens"
+  else if !discardedOk then "fail:carry:a discarded token must be reported with proto 0 and a failure code"
+  else judgeRun false tokens tokens (discarded + (tokens - discarded) * steps) res samples
+
 /-- Verdict on a direct call of a response-processing function: it must return (value or error), never panic. -/
 def judgeCall (obs : String) : String :=
   if obs.startsWith "PANIC" || obs.startsWith "panic" then s!"fail:panic:{obs.take 120}" else "ok"
